@@ -31,6 +31,7 @@ type nativeResult struct {
 	Observes     map[string]string `json:"observes"`
 	Asserts      int               `json:"asserts"`
 	AssumeSite   string            `json:"assume_site"`
+	Timeout      bool              `json:"timeout"`
 }
 
 var subDir = map[string]string{"otp": "", "api": "internal/app/api", "wasm": "wasm"}
@@ -38,7 +39,7 @@ var subPkgName = map[string]string{"otp": "otp", "api": "api", "wasm": "main"}
 
 func replayTestSource(sub string, harnessFns []string) string {
 	var sb strings.Builder
-	fmt.Fprintf(&sb, "package %s\n\nimport (\n\t\"encoding/json\"\n\t\"os\"\n\t\"testing\"\n)\n\n", subPkgName[sub])
+	fmt.Fprintf(&sb, "package %s\n\nimport (\n\t\"encoding/json\"\n\t\"os\"\n\t\"testing\"\n\t\"time\"\n)\n\n", subPkgName[sub])
 	sb.WriteString("func TestVerifReplay(t *testing.T) {\n\ttable := map[string]func(){\n")
 	sort.Strings(harnessFns)
 	for _, f := range harnessFns {
@@ -55,10 +56,23 @@ func replayTestSource(sub string, harnessFns []string) string {
 	}
 	var out []*verifJobResult
 	for i := range jobs {
-		r := verifRunJob(&jobs[i], table)
+		// a job that does not return within the deadline (a replayed model of unbounded work) is
+		// recorded as timed out; the spinning goroutine still owns the runner's state, so the
+		// remaining jobs are left to a fresh process
+		done := make(chan *verifJobResult, 1)
+		go func(j *verifJob) { done <- verifRunJob(j, table) }(&jobs[i])
+		var r *verifJobResult
+		select {
+		case r = <-done:
+		case <-time.After(60 * time.Second):
+			r = &verifJobResult{ID: jobs[i].ID, Timeout: true, Observes: map[string]string{}}
+		}
 		out = append(out, r)
-		if len(r.Failed) > 0 || r.Panic != "" {
-			t.Logf("job %s: failed assertions %v panic %q", r.ID, r.Failed, r.Panic)
+		if len(r.Failed) > 0 || r.Panic != "" || r.Timeout {
+			t.Logf("job %s: failed assertions %v panic %q timeout %v", r.ID, r.Failed, r.Panic, r.Timeout)
+		}
+		if r.Timeout {
+			break
 		}
 	}
 	b, _ := json.Marshal(out)
@@ -72,6 +86,27 @@ func replayTestSource(sub string, harnessFns []string) string {
 
 // runNative executes jobs for one package; dir receives the generated files.
 func runNative(sub string, jobs []nativeJob, harnessFns []string, dir string) ([]nativeResult, string, error) {
+	var all []nativeResult
+	var logs string
+	for round := 0; round < 8 && len(jobs) > 0; round++ {
+		res, log, err := runNativeOnce(sub, jobs, harnessFns, dir)
+		logs += log
+		if err != nil {
+			if len(all) > 0 {
+				return all, logs, nil
+			}
+			return nil, logs, err
+		}
+		all = append(all, res...)
+		if len(res) == 0 || !res[len(res)-1].Timeout || len(res) >= len(jobs) {
+			break
+		}
+		jobs = jobs[len(res):]
+	}
+	return all, logs, nil
+}
+
+func runNativeOnce(sub string, jobs []nativeJob, harnessFns []string, dir string) ([]nativeResult, string, error) {
 	os.MkdirAll(dir, 0o755)
 	_, real, err := overlayFor(sub, true)
 	if err != nil {
@@ -259,7 +294,7 @@ func replayAll(prop string, results []jobResult, viols []*Violation, loaded []*L
 				confirmed := false
 				// any assertion of the harness failing natively on the model is a genuine violation of
 				// the property (the failing assertion may be a neighbouring clause of the same defect)
-				confirmed = r.Panic != "" || len(r.Failed) > 0
+				confirmed = r.Panic != "" || len(r.Failed) > 0 || r.Timeout
 				if confirmed && v.Name != "uncaught-panic" {
 					same := false
 					for _, f := range r.Failed {
@@ -276,6 +311,9 @@ func replayAll(prop string, results []jobResult, viols []*Violation, loaded []*L
 					v.Replay = keepReplay(prop, sub, j, fns)
 					if r.Panic != "" {
 						v.Detail = strings.TrimSpace(v.Detail + " native panic: " + firstN(r.Panic, 200))
+					}
+					if r.Timeout {
+						v.Detail = strings.TrimSpace(v.Detail + " native run did not return within 60 s")
 					}
 				} else {
 					v.Replayed = "not-reproduced"
